@@ -30,6 +30,9 @@ EXTENDS HostSet
 CONSTANTS Policy,      \* "rr" | "random" | "lc"
           Selectors,   \* concurrent HandleConn goroutines
           MaxSel,      \* selections per behaviour
+          TornDraw,    \* TRUE: variant "the random source is drawn from in two steps shared by all selectors
+                       \* without a lock" (an unsynchronised *rand.Rand); FALSE: a draw is atomic (the locked
+                       \* global source of math/rand, lb.go randInt)
           Kinds        \* which host set operations take part: subset of
                        \* {"add", "remove", "existing", "replace", "mark"}
 
@@ -37,11 +40,14 @@ VARIABLES idx,      \* roundRobinBalancer.index
           sel,      \* per selector: pc, the loaded slice, ghosts taken at the load
           cc,       \* per object: active connections (Stats.connActive)
           conns,    \* established relays: records [s, o]
+          rng,      \* state of the shared random source: "idle" | "mid" (a draw is half done)
+          crashed,  \* a selector drew from the source while another draw was half done: torn state, the
+                    \* index runs out of range and PickHost panics (HandleConn has no recover)
           last,     \* ghost: the selection completed by the latest step (or NoPick)
           rrhist,   \* ghost: round-robin selections in index order: [snap, chosen]
           nsel
 
-bvars == <<idx, sel, cc, conns, last, rrhist, nsel>>
+bvars == <<idx, sel, cc, conns, last, rrhist, nsel, rng, crashed>>
 allvars == <<vars, bvars>>
 
 Idle == [pc |-> "idle", snap |-> <<>>, allowed |-> {}, noMain |-> FALSE, emptyOK |-> FALSE]
@@ -57,7 +63,7 @@ EmptyPossible == \E S \in SUBSET InflightObjs : UsableWith(S) = {}
 BInit ==
   /\ Init
   /\ idx = 0 /\ sel = [s \in Selectors |-> Idle] /\ cc = [o \in Objs |-> 0]
-  /\ conns = {} /\ last = NoPick /\ rrhist = <<>> /\ nsel = 0
+  /\ conns = {} /\ last = NoPick /\ rrhist = <<>> /\ nsel = 0 /\ rng = "idle" /\ crashed = FALSE
 
 Load(s) ==
   /\ sel[s].pc = "idle" /\ nsel < MaxSel /\ \A c \in conns : c.s # s
@@ -70,7 +76,7 @@ Load(s) ==
      ELSE /\ sel' = [sel EXCEPT ![s] = [pc |-> "loaded", snap |-> cache, allowed |-> Allowed,
                                         noMain |-> NoMainPossible, emptyOK |-> EmptyPossible]]
           /\ last' = NoPick
-  /\ UNCHANGED <<vars, idx, cc, conns, rrhist>>
+  /\ UNCHANGED <<vars, idx, cc, conns, rrhist, rng, crashed>>
 
 Established(s, o, rec) ==
   /\ last' = rec
@@ -90,22 +96,39 @@ PickRR(s) ==
      IN /\ idx' = v
         /\ rrhist' = Append(rrhist, [snap |-> snap, chosen |-> o, v |-> v])
         /\ Established(s, o, Rec(s, o, v, NoObj, NoObj, 0, 0))
-  /\ UNCHANGED <<vars, nsel>>
+  /\ UNCHANGED <<vars, nsel, rng, crashed>>
 
-PickRandom(s) ==
-  /\ Policy = "random" /\ sel[s].pc = "loaded"
+\* pcw: the pc at which the pick happens: "loaded" with an atomic draw, "drawing" with the torn variant
+PickRandomAt(s, pcw) ==
+  /\ Policy = "random" /\ sel[s].pc = pcw
   /\ \E r \in 0..(Len(sel[s].snap) - 1) :
        LET o == sel[s].snap[r + 1] IN Established(s, o, Rec(s, o, r, NoObj, NoObj, 0, 0))
-  /\ UNCHANGED <<vars, idx, rrhist, nsel>>
+  /\ UNCHANGED <<vars, idx, rrhist, nsel, crashed>>
 
-PickLC(s) ==
-  /\ Policy = "lc" /\ sel[s].pc = "loaded"
+PickLCAt(s, pcw) ==
+  /\ Policy = "lc" /\ sel[s].pc = pcw
   /\ \E r1 \in 0..(Len(sel[s].snap) - 1), r2 \in 0..(Len(sel[s].snap) - 1) :
        LET h1 == sel[s].snap[r1 + 1]
            h2 == sel[s].snap[r2 + 1]
            o  == IF cc[h1] < cc[h2] THEN h1 ELSE h2
        IN Established(s, o, Rec(s, o, r1 * 10 + r2, h1, h2, cc[h1], cc[h2]))
-  /\ UNCHANGED <<vars, idx, rrhist, nsel>>
+  /\ UNCHANGED <<vars, idx, rrhist, nsel, crashed>>
+
+PickRandom(s) == ~TornDraw /\ PickRandomAt(s, "loaded") /\ UNCHANGED rng
+PickLC(s) == ~TornDraw /\ PickLCAt(s, "loaded") /\ UNCHANGED rng
+
+\* torn variant: the draw starts (the generator's indices are being advanced) ...
+DrawBegin(s) ==
+  /\ TornDraw /\ Policy \in {"random", "lc"} /\ sel[s].pc = "loaded"
+  /\ IF rng = "mid"
+     THEN crashed' = TRUE /\ UNCHANGED <<sel, rng>>
+     ELSE rng' = "mid" /\ sel' = [sel EXCEPT ![s].pc = "drawing"] /\ UNCHANGED crashed
+  /\ last' = NoPick
+  /\ UNCHANGED <<vars, idx, cc, conns, rrhist, nsel>>
+\* ... and ends with the value
+DrawEnd(s) ==
+  /\ TornDraw /\ rng' = "idle"
+  /\ PickRandomAt(s, "drawing") \/ PickLCAt(s, "drawing")
 
 \* the relay ends: the client or the backend closes
 Finish(c) ==
@@ -113,7 +136,7 @@ Finish(c) ==
   /\ conns' = conns \ {c}
   /\ cc' = [cc EXCEPT ![c.o] = @ - 1]
   /\ last' = NoPick
-  /\ UNCHANGED <<vars, idx, sel, rrhist, nsel>>
+  /\ UNCHANGED <<vars, idx, sel, rrhist, nsel, rng, crashed>>
 
 \* the watcher closes both sides because the removal latch of the chosen object is closed
 WatcherClose(c) == removed[c.o] /\ Finish(c)
@@ -125,11 +148,11 @@ SetOp ==
      \/ "replace" \in Kinds /\ \E f \in ReplaceArgs : ReplaceAll(f)
      \/ "mark" \in Kinds /\ \E o \in Objs, k \in {"healthy", "unhealthy"} : MarkBegin(o, k)
      \/ "mark" \in Kinds /\ \E m \in inflight : MarkEnd(m)
-  /\ last' = NoPick /\ UNCHANGED <<idx, sel, cc, conns, rrhist, nsel>>
+  /\ last' = NoPick /\ UNCHANGED <<idx, sel, cc, conns, rrhist, nsel, rng, crashed>>
 
 BNext ==
   \/ SetOp
-  \/ \E s \in Selectors : Load(s) \/ PickRR(s) \/ PickRandom(s) \/ PickLC(s)
+  \/ \E s \in Selectors : Load(s) \/ PickRR(s) \/ PickRandom(s) \/ PickLC(s) \/ DrawBegin(s) \/ DrawEnd(s)
   \/ \E c \in conns : Finish(c)
 
 BSpec == BInit /\ [][BNext]_allvars
@@ -141,7 +164,7 @@ BFairSpec == BSpec /\ \A s \in Selectors, o \in Objs : WF_allvars(WatcherClose([
 BTypeOK ==
   /\ TypeOK
   /\ idx \in Nat /\ nsel \in 0..MaxSel
-  /\ \A s \in Selectors : sel[s].pc \in {"idle", "loaded"}
+  /\ \A s \in Selectors : sel[s].pc \in {"idle", "loaded", "drawing"}
   /\ \A o \in Objs : cc[o] \in 0..MaxSel
 
 \* C06: every connection is relayed to a host that at selection time (the load) belongs to the
@@ -154,6 +177,9 @@ SelectedWasUsable ==
 \* backup hosts only when no main host is healthy
 BackupOnlyIfNoMain ==
   last.done /\ last.chosen # NoObj /\ otype[last.chosen] = "backup" => last.noMain
+
+\* a pick never crashes the processor
+NoCrash == ~crashed
 
 \* random and least-connection (and round-robin) only ever pick members of the candidate list
 RandomInCandidates ==
